@@ -274,6 +274,60 @@ MultiCase(q) ==
   IN Out(Env("RESULT_ROWS", q.v, 0, 1, 0, [meta |-> MkMeta(types, q.g, FALSE, q.n), rows |-> rows]),
          TRUE, Map(cs, MKindPlan), PrepFor(q.v, types, q.g))
 
+\* ------------------------------------------------------------------ UDT: a UDT (int, text, int) at top level and nested in list / set /
+\* map / tuple, scanned into every destination shape the documentation allows: map, UDTUnmarshaler,
+\* structs by cql tag and by field name - complete ones and ones that lack the leading, the middle,
+\* the trailing field, or all but one.  Values: fewer fields than the type, a null field, all fields, null.
+S_Fa == <<70, 97>>
+S_Fb == <<70, 98>>
+S_Fc == <<70, 99>>
+S_f3 == <<102, 51>>
+UShapes == << [shape |-> "map", byname |-> FALSE, vis |-> <<1, 2, 3>>, raw |-> FALSE],
+              [shape |-> "udtu", byname |-> FALSE, vis |-> <<1, 2, 3>>, raw |-> TRUE],
+              [shape |-> "tfull", byname |-> FALSE, vis |-> <<1, 2, 3>>, raw |-> FALSE],
+              [shape |-> "tnolead", byname |-> FALSE, vis |-> <<2, 3>>, raw |-> FALSE],
+              [shape |-> "tnomid", byname |-> FALSE, vis |-> <<1, 3>>, raw |-> FALSE],
+              [shape |-> "tnotrail", byname |-> FALSE, vis |-> <<1, 2>>, raw |-> FALSE],
+              [shape |-> "tonlylast", byname |-> FALSE, vis |-> <<3>>, raw |-> FALSE],
+              [shape |-> "tonlymid", byname |-> FALSE, vis |-> <<2>>, raw |-> FALSE],
+              [shape |-> "nfull", byname |-> TRUE, vis |-> <<1, 2, 3>>, raw |-> FALSE],
+              [shape |-> "nnolead", byname |-> TRUE, vis |-> <<2, 3>>, raw |-> FALSE],
+              [shape |-> "nnomid", byname |-> TRUE, vis |-> <<1, 3>>, raw |-> FALSE],
+              [shape |-> "nnotrail", byname |-> TRUE, vis |-> <<1, 2>>, raw |-> FALSE],
+              [shape |-> "nonlylast", byname |-> TRUE, vis |-> <<3>>, raw |-> FALSE] >>
+UKinds == <<"int", "text", "int">>
+UNames(sh) == IF sh.byname THEN <<"Fa", "Fb", "Fc">> ELSE <<"f1", "f2", "f3">>
+UWire(sh) == IF sh.byname THEN <<S_Fa, S_Fb, S_Fc>> ELSE <<S_f1, S_f2, S_f3>>
+UType(sh) == Udt(UWire(sh), <<TInt, TText, TInt>>)
+\* the four values: i = 1 two fields only, 2 null middle field, 3 complete, 4 null
+UVal(sh, i, salt) ==
+  LET nm == UNames(sh) IN
+  CASE i = 1 -> CUdt(nm, UKinds, <<CInt(11 + salt), CText(<<97, 98>>)>>, sh.vis, sh.raw)
+    [] i = 2 -> CUdt(nm, UKinds, <<CInt(-2 - salt), CNullText, CInt(23 + salt)>>, sh.vis, sh.raw)
+    [] i = 3 -> CUdt(nm, UKinds, <<CInt(31 + salt), CText(<<67>>), CInt(2147483647)>>, sh.vis, sh.raw)
+    [] i = 4 -> CNullUdt(nm, UKinds, sh.vis, sh.raw)
+UPositions == <<"top", "list", "map", "tuple", "set">>
+UColType(sh, pos) == CASE pos = "top" -> UType(sh) [] pos = "list" -> TyList(UType(sh)) [] pos = "set" -> TySet(UType(sh))
+                       [] pos = "map" -> TyMap(TInt, UType(sh)) [] pos = "tuple" -> TyTuple(<<TInt, UType(sh)>>)
+UPlan(sh, pos) ==
+  [kind |-> CASE pos = "top" -> "udt" [] pos \in {"list", "set"} -> "list_udt" [] pos = "map" -> "map_int_udt" [] pos = "tuple" -> "tuple",
+   elems |-> IF pos = "tuple" THEN <<"int", "udt">> ELSE <<>>, shape |-> sh.shape,
+   fields |-> [i \in 1 .. 3 |-> [name |-> UNames(sh)[i], kind |-> UKinds[i]]]]
+URows(sh, pos) ==
+  CASE pos = "top" -> [r \in 1 .. 4 |-> <<UVal(sh, r, 0)>>]
+    [] pos \in {"list", "set"} -> << <<CListOf(<<UVal(sh, 1, 0), UVal(sh, 2, 0)>>)>>, <<CListOf(<<UVal(sh, 3, 1), UVal(sh, 4, 0), UVal(sh, 2, 5)>>)>>,
+                                     <<CNullList>>, <<CListOf(<<>>)>> >>
+    [] pos = "map" -> << <<CMapIntOf(<<1, 2>>, <<UVal(sh, 1, 0), UVal(sh, 3, 0)>>)>>, <<CMapIntOf(<<5, 7>>, <<UVal(sh, 2, 3), UVal(sh, 4, 0)>>)>>, <<CNullMap>> >>
+    [] pos = "tuple" -> [r \in 1 .. 4 |-> <<CTuple(<<CInt(r), UVal(sh, r, r)>>)>>]
+UdtParams == {q \in [fam : {"UDT"}, v : 3 .. 5, pos : 1 .. 5, sh : 1 .. Len(UShapes), n : BOOLEAN, g : BOOLEAN] :
+                /\ Thorough \/ (q.pos <= 4 /\ q.g = ((q.sh + q.pos) % 2 = 0)) }
+UdtCase(q) ==
+  LET sh == UShapes[q.sh]
+      pos == UPositions[q.pos]
+      types == <<UColType(sh, pos)>>
+  IN Out(Env("RESULT_ROWS", q.v, 0, 1, 0, [meta |-> MkMeta(types, q.g, FALSE, q.n), rows |-> URows(sh, pos)]),
+         TRUE, <<UPlan(sh, pos)>>, PrepFor(q.v, types, q.g))
+
 \* ------------------------------------------------------------------ PREPARED
 ReqTypes(v) == << <<>>, <<TInt>>, <<TInt, TText>>, <<TyList(TText), TMy>> >> \o
                (IF v >= 3 THEN << <<TTup>>, <<Udt(<<S_f1, S_f2>>, <<TInt, TTup>>), TInt>> >> ELSE <<>>)
@@ -298,11 +352,11 @@ PrepCase(q) ==
 \* ------------------------------------------------------------------ BFS generator
 Families == <<"SIMPLE", "ERROR", "SCHEMA", "EVENT", "TYPES", "ROWS", "PREP">>
 Init == \/ p \in SimpleParams \/ p \in ErrParams \/ p \in SchemaParams \/ p \in EventParams
-        \/ p \in TypeParams \/ p \in RowsParams \/ p \in PrepParams \/ p \in MultiParams
+        \/ p \in TypeParams \/ p \in RowsParams \/ p \in PrepParams \/ p \in MultiParams \/ p \in UdtParams
 Next == UNCHANGED p
 Case(q) == CASE q.fam = "SIMPLE" -> SimpleCase(q) [] q.fam = "ERROR" -> ErrCase(q) [] q.fam = "SCHEMA" -> SchemaCase(q)
              [] q.fam = "EVENT" -> EventCase(q) [] q.fam = "TYPES" -> TypeCase(q) [] q.fam = "ROWS" -> RowsCase(q)
-             [] q.fam = "PREP" -> PrepCase(q) [] q.fam = "MULTI" -> MultiCase(q)
+             [] q.fam = "PREP" -> PrepCase(q) [] q.fam = "MULTI" -> MultiCase(q) [] q.fam = "UDT" -> UdtCase(q)
 Emit == PrintT("CASE " \o ToJson([fam |-> p.fam] @@ Case(p)))
 
 \* ------------------------------------------------------------------ -simulate: random deeper trees
